@@ -501,3 +501,83 @@ def c05(tier):
                      "table entries are compared only when declaration names are unique and the damage does not introduce a declared name"]
     c.exhaustive = True
     c.finish()
+
+
+# ---------------------------------------------------------------------------
+# C09 C10 C11 C17: formatter and folding ranges (one replay mode, failures tagged by property)
+
+def _only_prop(r, prop):
+    r = dict(r)
+    r["failures"] = [f for f in r["failures"] if f["what"].startswith(prop + ":")]
+    r["counters"] = {k: v for k, v in r.get("counters", {}).items() if not k.startswith("class:") or k.startswith("class:" + prop + ":")}
+    r["nfail"] = sum(v for k, v in r["counters"].items() if k.startswith("class:"))
+    return r
+
+
+def _format_check(prop, tier, rule, assumptions, layouts, gaps, alloptions):
+    c = Check(prop, tier)
+    c.rule = rule
+    vlib.build_harness()
+    exe = vlib.build_server(False)
+    cfgs = [("MC_SplGrammar_n15", 2), ("MC_SplGrammar_stmt16", 7), ("MC_SplGrammar_expr", 7)] if tier == "quick" else \
+           [("MC_SplGrammar_n17", 1), ("MC_SplGrammar_stmt", 1), ("MC_SplGrammar_expr", 1), ("MC_SplGrammar_expr2", 3)]
+    for cfg, stride in cfgs:
+        res = vlib.tlc("MC_SplGrammar", cfg + ".cfg", prop.lower() + "_" + cfg, timeout=6000, heap="16g")
+        vlib.require_coverage(res, ["Expand", "Shift"])
+        c.add_tlc(res, cfg)
+        r = _srv("format", res["out"], prop.lower() + "_" + cfg, exe,
+                 ["layouts=" + layouts, "gaps=%d" % gaps, "alloptions=%d" % alloptions, "stride=%d" % stride,
+                  "offset=%d" % (vlib.seed() % stride)], timeout=7200)
+        c.add_harness(_only_prop(r, prop), cfg)
+        os.remove(res["out"])
+    procs, num = (8, 2) if tier == "quick" else (16, 20)
+    res = vlib.tlc_sim_multi("MC_SplGrammar", "Sim_SplGrammar.cfg", prop.lower() + "_sim", procs, num, 5000, timeout=3000)
+    c.add_tlc(res, "Sim_SplGrammar (400-token programs)")
+    r = _srv("format", res["out"], prop.lower() + "_sim", exe, ["layouts=" + layouts, "gaps=%d" % (gaps * 4), "alloptions=%d" % alloptions])
+    c.add_harness(_only_prop(r, prop), "simulated large programs")
+    os.remove(res["out"])
+    c.assumptions = assumptions
+    c.exhaustive = True
+    c.finish()
+
+
+def c09(tier):
+    _format_check("C09", tier,
+                  "Programs of the SplGrammar derivation machine (all up to the token bound, sub-grammars with every operator and literal "
+                  "spelling, simulated 400-token programs) are rendered under layouts (canonical, minimal, newline, CRLF, tab, comments in all "
+                  "gaps) and opened in the real server; the formatting answer is applied by the harness's own edit model and a lock-step "
+                  "matcher walks the result requiring the specified terminal sequence (literals by value), nothing else but white space and "
+                  "comments; the edit must be one edit covering 0:0..end (independent position model); diagnostics before/after must agree. "
+                  "All ten option sets on the canonical layout.",
+                  ["literal tokens compared by value, identifiers/operators by spelling", "diagnostics compared as multisets of messages"],
+                  "canon,min,nl,crlf,tab,cmtall", 2, 1)
+
+
+def c10(tier):
+    _format_check("C10", tier,
+                  "PlaceComment(g, k): for every program of the derivation machine a distinct comment line is put into EVERY gap at once "
+                  "(layout cmtall) and into single gaps in turn (before the first, between any two, after the last terminal); the comments "
+                  "collected by the lock-step matcher from the formatted text must be the same sequence (text trimmed). Each lost comment is "
+                  "reported with the syntactic SITE of its gap (statement-level node + terminal / child class).",
+                  ["comment texts compared after trimming blanks", "known findings are identified by syntactic site: a lost comment at an unlisted site is a violation"],
+                  "canon,cmtall", 6, 0)
+
+
+def c11(tier):
+    _format_check("C11", tier,
+                  "On the real server, for every program and layout: format, apply the returned edit as a didChange, format again -> must be "
+                  "null; null is returned iff the text equals the result; the comment-free layouts of one derivation must format to the same "
+                  "text; every line that starts with a specified terminal is indented by exactly unit^depth (unit = tabSize blanks or one "
+                  "tab; depth from the specified tree: procedure body, blocks, non-block branches, parameters on own lines). All ten option sets.",
+                  ["depth of a line = nesting depth of its first terminal in the specified tree"],
+                  "canon,min,nl,crlf,tab,cmtall", 2, 1)
+
+
+def c17(tier):
+    _format_check("C17", tier,
+                  "For every program and layout the folding ranges returned by the real server must be exactly one per ProcDec node of the "
+                  "specified tree, in source order, startLine = line of the `proc` terminal (after doc comments), endLine = line of the last "
+                  "terminal, by the independent position model; start <= end, inside the document, non-overlapping where the procedures do "
+                  "not share lines.",
+                  ["well-formedness on broken documents is covered by C02's sweep"],
+                  "canon,min,nl,crlf,cmtall", 4, 0)
